@@ -21,6 +21,7 @@ import (
 	"github.com/furiko-io/furiko/pkg/execution/stores/activejobstore"
 	jobutil "github.com/furiko-io/furiko/pkg/execution/util/job"
 	"github.com/furiko-io/furiko/pkg/execution/util/jobconfig"
+	"github.com/furiko-io/furiko/pkg/runtime/controllercontext"
 	"github.com/furiko-io/furiko/pkg/runtime/reconciler"
 
 	"verif/internal/mc"
@@ -187,6 +188,10 @@ func (w *queueWorld) build(b *mc.Base) {
 	}
 	b.Ctx.Stores().Register(store)
 	w.store = store
+	// Preemption points at the synchronisation operations of the store (CHESS discipline):
+	// the informer goroutine may deliver a Job event between the count read and the CAS.
+	b.PreemptResource = sim.Jobs
+	b.Ctx.StoresOverride = pointStores{Stores: b.Ctx.Context.Stores(), base: b}
 
 	ctx := jobqueuecontroller.NewContextWithRecorder(b.Ctx, &record.FakeRecorder{})
 	jcq := b.AddQueue("jcq", nil)
@@ -573,4 +578,39 @@ func (w *queueWorld) timerArmedFor(rj *execution.Job) bool {
 		}
 	}
 	return false
+}
+
+// pointStores wraps the store registry so that the reconcilers see a store whose
+// operations are preemption points.
+type pointStores struct {
+	controllercontext.Stores
+	base *mc.Base
+}
+
+func (p pointStores) ActiveJobStore() (controllercontext.ActiveJobStore, error) {
+	s, err := p.Stores.ActiveJobStore()
+	if err != nil {
+		return nil, err
+	}
+	return pointStore{s, p.base}, nil
+}
+
+type pointStore struct {
+	real controllercontext.ActiveJobStore
+	base *mc.Base
+}
+
+func (p pointStore) CountActiveJobsForConfig(rjc *execution.JobConfig) int64 {
+	p.base.Point()
+	return p.real.CountActiveJobsForConfig(rjc)
+}
+
+func (p pointStore) CheckAndAdd(rjc *execution.JobConfig, oldCount int64) bool {
+	p.base.Point()
+	return p.real.CheckAndAdd(rjc, oldCount)
+}
+
+func (p pointStore) Delete(rjc *execution.JobConfig) {
+	p.base.Point()
+	p.real.Delete(rjc)
 }
